@@ -24,6 +24,8 @@ for sid in sorted(os.listdir(sd)):
                 kind = "no-failing-input-found (model/proof break named)" if "no-failing-input-found" in c["violation_line"] \
                     else "concrete failing input (%s)" % (c.get("replay_kind") or "oracle")
                 parts.append("%s: VIOLATION, %s" % (pid, kind))
+            elif meta.get("outside_property"):
+                parts.append("%s: exit %s - judged OUTSIDE the property's quantifier: %s" % (pid, c["exit"], meta["outside_property"]))
             else:
                 parts.append("%s: **missed** (exit %s)" % (pid, c["exit"]))
         verdict = "; ".join(parts)
@@ -34,7 +36,13 @@ for sid in sorted(os.listdir(sd)):
 table = "\n".join(["| seeded change | property | origin | needs, in order to manifest | quick check verdict |",
                    "|---|---|---|---|---|"] + rows)
 caught = sum(1 for r in res.values() if r.get("caught"))
-summary = "%d seeded changes run, %d caught, %d missed." % (len(res), caught, len(res) - caught)
+outside = 0
+for sid, r in res.items():
+    mp = os.path.join(sd, sid, "meta.json")
+    if not r.get("caught") and os.path.exists(mp) and json.load(open(mp)).get("outside_property"):
+        outside += 1
+summary = "%d seeded changes run, %d caught, %d missed, %d judged outside the property's quantifier (not counted as missed)." % (
+    len(res), caught, len(res) - caught - outside, outside)
 p = os.path.join(VERIF, "DESIGN.md")
 s = open(p).read()
 a, b = "<!-- CATCH-BEGIN -->", "<!-- CATCH-END -->"
